@@ -33,6 +33,8 @@ QUERIES = {
     "arg_is_1": "?(1 ?eq) 5",
     "arg_is_2": "?(2 ?eq) 5",
     "file_has_enum": "?([entry ?TAG_enumeration_type] length 0 ?gt) 6",
+    # the position of the value on top: a file's Dwarf counts among the files that opened, an argument's value among its values
+    "pos_of_top": "pos",
 }
 ARGSETS = {
     "none": [],
@@ -67,7 +69,7 @@ def arg_values(d, kind, text):
 def render_value(canon, files_by_fid):
     """CLI `full` rendering of a simple value."""
     c = canon.rsplit("@", 1)[0]
-    if c.startswith("c:dec:"):
+    if c.startswith("c:dec:") or c.startswith("c:pos:"):
         return c[6:].encode()
     if c.startswith("c:hex:"):
         v = int(c[6:])
@@ -123,7 +125,7 @@ def expectation(d, query, files, argset, flags, openable):
         niter *= len(x)
     with_header = (niter > 1 or H) and not h
     out, any_result, any_error = b"", False, False
-    for combo in itertools.product(*dims):
+    for combo_index, combo in enumerate(itertools.product(*dims)):
         init = ",".join("d%d" % fid[f] for (_, f) in combo[:1] if files) if files else "-"
         rest = combo[1:] if files else combo
         prefix = " ".join(lit(v) for v, _ in rest)
@@ -134,6 +136,10 @@ def expectation(d, query, files, argset, flags, openable):
                 res.append(l[2:])
             elif l.startswith("e "):
                 err = l[2:]
+        if query == "pos" and files and len(dims) == 1 and err is None:
+            # the library driver builds its input stack itself (the Dwarf at position 0); on the command line a file's
+            # Dwarf is the k-th of the files that opened: unopenable files are skipped, so they do not count
+            res = ["c:pos:%d" % combo_index]
         parts = []
         for k, (v, txt) in enumerate(combo):
             if (k == 0 and files) or len(dims[k]) > 1:
